@@ -246,7 +246,7 @@ def householder_vector_all_lengths(rep, prop):
         a_zero = ctx.valid(alpha2 == 0) is True
         if a_zero:
             out.append(("zero_input_gives_zero_u_and_zeta_1", (not u.p.t) and isinstance(zeta, ix.QScal) and zeta.c[0] == 1))
-            out += [("u_has_squared_norm_2", True), ("zeta_is_a_unit_quaternion", True), ("uH_a_is_mu", True)]
+            out += [("u_has_squared_norm_2", True), ("zeta_is_a_unit_quaternion", True), ("uH_a_is_mu", True), ("I_minus_uuH_maps_a_to_alpha_v_zeta", True)]
             return out
         out.append(("zero_input_gives_zero_u_and_zeta_1", True))
         out.append(("u_has_squared_norm_2", uu, one.scale(2)))
@@ -262,10 +262,13 @@ def householder_vector_all_lengths(rep, prop):
             ctx.ghost["zero_words"] = tuple(wz) + tuple(tuple((n_, not s_) for n_, s_ in reversed(w_)) for w_ in wz)
         mu = ssqrt(alpha * (alpha + r))
         out.append(("uH_a_is_mu", u.p.star @ a.p, one.scale(mu)))
+        # (I - u u^H) a = alpha * v * zeta : left multiplication by the scalar matrix zeta^-1 I then gives H a = alpha v  (v real)
+        zp = zeta.p if isinstance(zeta, Q1) else one
+        out.append(("I_minus_uuH_maps_a_to_alpha_v_zeta", (NC.eye(L) - u.p @ u.p.star) @ a.p, (v.p @ zp).scale(alpha)))
         return out
     try:
         run_case(rep, prop, TD + "householder_vector", "all_lengths.column", setup, post, lib=lib, contracts={U + "quat_frobenius_norm": k_fro},
-                 clauses=["returns_vector_and_scalar", "zero_input_gives_zero_u_and_zeta_1", "u_has_squared_norm_2", "zeta_is_a_unit_quaternion", "uH_a_is_mu"],
+                 clauses=["returns_vector_and_scalar", "zero_input_gives_zero_u_and_zeta_1", "u_has_squared_norm_2", "zeta_is_a_unit_quaternion", "uH_a_is_mu", "I_minus_uuH_maps_a_to_alpha_v_zeta"],
                  replay=replay_householder, timeout_s=60)
     finally:
         ncm.SCALAR_RULE[0] = False
